@@ -530,9 +530,8 @@ def eval (cfg : ECfg) (al : List (Str × Val)) : Nat → Node → RM Unit
       mModify (fun s => { s with repeats := (key, { length := items.length, consumed := 0 }) :: s.repeats.filter (·.1 != key) })
       names.forM (fun nm => setVar nm.str .none)
       evalRepeat cfg al f key names local_ ws node items items.length
-      -- restore (unconditionally: quirk D-05a makes this raise NameError for global repeats)
-      if local_ then restore backups
-      else mUnsupported "global repeat (D-05a)"
+      -- `if local: outer += self._leave_assignment(names)`
+      if local_ then restore backups else pure ()
     | .onError id fallback node => fun s =>
       let key := if cfg.tc.q.sharedFallbackVar then 0 else id
       let savedLen := (s.streams.headD []).length
@@ -641,7 +640,9 @@ def evalRepeat (cfg : ECfg) (al : List (Str × Val)) : Nat → Str → List Tok 
     -- next(): the shared iterator advances
     mModify (fun s => { s with repeats := s.repeats.map (fun (k, r) => if k == key then (k, { r with consumed := r.consumed + 1 }) else (k, r)) })
     match names with
-    | [nm] => setVar nm.str item
+    | [nm] => do
+      setVar nm.str item
+      if !local_ then mModify (fun s => { s with rcontext := (nm.str, item) :: s.rcontext.filter (·.1 != nm.str) }) else pure ()
     | _ => mUnsupported "tuple repeat"
     eval cfg al f node
     if remaining - 1 > 0 then emit ws else pure ()
